@@ -49,7 +49,13 @@ def execute(spec):
         if r["st"]["op"] in STRUCT or r["st"]["op"] in ("write", "tabwrite", "setattr"):
             structural += 1
         wsteps.append({"desc": r["desc"], "obs": r["obs"]})
-    return {"fam": spec["fam"], "case": {"steps": wsteps}, "impl": {"steps": len(steps), "big": big, "structural": structural}}
+    out = {"fam": spec["fam"], "case": {"steps": wsteps}, "impl": {"steps": len(steps), "big": big, "structural": structural}}
+    for r in recs:
+        c = H.crash_of(r["st"], r["desc"].get("res"))
+        if c:
+            out["py_fail"] = c
+            break
+    return out
 
 
 def _run(spec, w):
